@@ -3,6 +3,7 @@ package tracker
 import (
 	"context"
 	"errors"
+	"math"
 	"net/http"
 	"net/netip"
 	nurl "net/url"
@@ -92,6 +93,10 @@ func (tracker *HTTP) Announce(ctx context.Context, hash []byte, myid []byte,
 		}
 	}
 
+	if interval > math.MaxInt32 {
+		// avoid overflowing time.Duration
+		interval = math.MaxInt32
+	}
 	tracker.updateInterval(time.Duration(interval)*time.Second, err)
 	return err
 }
